@@ -5,7 +5,9 @@ use serde::{Deserialize, Serialize};
 
 pub mod cells;
 pub mod de9im;
+pub mod jts;
 pub mod measure;
+pub mod selftest;
 pub mod validity;
 
 pub use de9im::{de9im, Matrix};
